@@ -1,0 +1,51 @@
+//go:build verif
+
+// Contracts for the deductive verification in /verif (govc): the hand-encoded TLS
+// handshake message encoders of handshake_messages.go (property C30). Their decoders are
+// under contract in zz_verif_contracts_tlsmsgs.go in the same terms (type byte, 24-bit body
+// length, field layout), so decode(encode(v)) == v follows for these messages when the
+// variable-length field fits its length prefix. Comment-only file.
+
+package tls
+
+// handshake header: type, 24-bit big-endian length of the body that follows
+//@ pred hsHdr(x, typ) = len(x) >= 4 && x[0] == uint8(typ) && (int(x[1])<<16 | int(x[2])<<8 | int(x[3])) == len(x) - 4
+
+//@ func (*serverHelloDoneMsg).marshal
+//@   ensures len(result) == 4 && hsHdr(result, 14)
+//@   terminates
+
+//@ func (*helloRequestMsg).marshal
+//@   ensures len(result) == 4 && hsHdr(result, 0)
+//@   terminates
+
+//@ func (*serverKeyExchangeMsg).marshal
+//@   requires m != nil && len(m.key) < 1<<24
+//@   ensures old(m.raw) != nil ==> same(result, old(m.raw))
+//@   ensures old(m.raw) == nil ==> hsHdr(result, 12) && len(result) == 4 + len(m.key) && forall(k, 0, len(m.key), result[4+k] == m.key[k]) && fresh(result)
+//@   ensures same(m.raw, result)
+//@   modifies m.raw
+//@   terminates
+
+//@ func (*clientKeyExchangeMsg).marshal
+//@   requires m != nil && len(m.ciphertext) < 1<<24
+//@   ensures old(m.raw) != nil ==> same(result, old(m.raw))
+//@   ensures old(m.raw) == nil ==> hsHdr(result, 16) && len(result) == 4 + len(m.ciphertext) && forall(k, 0, len(m.ciphertext), result[4+k] == m.ciphertext[k]) && fresh(result)
+//@   ensures same(m.raw, result)
+//@   modifies m.raw
+//@   terminates
+
+// NewSessionTicket (RFC 5077 3.3): uint32 ticket_lifetime_hint, then the 16-bit-length-prefixed ticket.
+//@ func (*newSessionTicketMsg).marshal
+//@   requires m != nil && len(m.ticket) < 1<<16
+//@   ensures old(m.raw) != nil ==> same(x, old(m.raw))
+//@   ensures old(m.raw) == nil ==> hsHdr(x, 4) && len(x) == 10 + len(m.ticket) && fresh(x)
+//@   ensures [lifetime] old(m.raw) == nil ==> (uint32(x[4])<<24 | uint32(x[5])<<16 | uint32(x[6])<<8 | uint32(x[7])) == m.lifetimeHint
+//@   ensures old(m.raw) == nil ==> (int(x[8])<<8 | int(x[9])) == len(m.ticket) && forall(k, 0, len(m.ticket), x[10+k] == m.ticket[k])
+//@   ensures same(m.raw, x)
+//@   modifies m.raw
+//@   terminates
+
+// (*certificateMsg).marshal is not under contract: its second loop is only safe because the
+// first loop summed the certificate lengths; stating that needs a sum over a slice of slices,
+// which the contract language cannot express (recorded in DESIGN.md as a limitation).
